@@ -209,7 +209,7 @@ StepEvent0 ==
                          THEN <<V(r, k, "C06", "FRAME length differs from the number of bytes that follow")>> ELSE <<>>)
                      \o (IF e.ph = PH_stop /\ lexd'.op # B_STOP THEN <<V(r, k, "C04", "final opcode is not STOP")>> ELSE <<>>)
                      \o (IF e.ph \in EmitPhases /\ cnt.pieces = 0 /\ ~more THEN DriftFindings(r, k, e, c, gs') ELSE <<>>)
-             /\ broken' = (broken \/ ~(lexd'.known /\ lexd'.ok /\ (lexd'.nxt = e.len + 1 \/ more)) \/ st'.cls # "")
+             /\ broken' = (broken \/ ~(lexd'.known /\ lexd'.ok /\ (lexd'.nxt = e.len + 1 \/ more)) \/ st'.cls \notin {"", "kind"})
              /\ cnt' = [cnt EXCEPT !.body = @ + (IF e.ph = PH_body /\ ~more THEN 1 ELSE 0),
                                    !.tail = @ + (IF e.ph \in {PH_close, PH_collapse, PH_pad} /\ ~more THEN 1 ELSE 0),
                                    !.pieces = IF more THEN @ + 1 ELSE 0,
